@@ -121,6 +121,16 @@ def run(ctx):
             for (a, cv), (_, (c, q)) in zip(got, model_rows):
                 if not close(float(cv), float(c) * math.exp(float(q))):
                     ok = False
+        # the shifted function is a function of its own: its symbolic derivatives and its coefficient lookup are those of a freshly
+        # built copy with the same (alpha, c), whatever was requested from f before the shift (f.grad and f.hess were)
+        from sageopt.symbolic.signomials import Signomial as _Sig
+        fresh = _Sig(np.asarray(fs.alpha, dtype=float).copy(), np.asarray(fs.c, dtype=float).copy())
+        if c12.canon(fs.grad[i]) != c12.canon(fresh.grad[i]) or c12.canon(fs.hess[i, k]) != c12.canon(fresh.hess[i, k]) \
+                or dict(fs.alpha_c) != dict(fresh.alpha_c):
+            ctx.problem('oracle', 'after f.grad/f.hess were requested, f.shift_coordinates(x0) has symbolic derivatives or a coefficient table that '
+                        'differ from those of a fresh Signomial with the same exponents and coefficients',
+                        inputs={'f': str(rows), 'x0': [str(v) for v in x0], 'i': i, 'k': k}, failing_input_found=True)
+            return
         shifts.append(({'f': str(rows), 'x0': [str(v) for v in x0]}, cq((frows, x0)), cq([(a, cq_pair) for a, cq_pair in model_rows]), ok))
         if not ok:
             ctx.problem('oracle', 'shift_coordinates: coefficients differ from c*exp(alpha.x0) beyond 4 ulp', inputs={'f': str(rows), 'x0': [str(v) for v in x0]},
